@@ -155,6 +155,11 @@ pub fn exact_norm_triple(rng: &mut Prng, n: usize, target: i64, style: u64) -> O
     let ml = rng.range(0, 40) as usize;
     let msg = rng.bytes(ml);
     let salt = rng.bytes(40);
+    exact_norm_triple_for(rng, n, target, style, salt, msg)
+}
+
+/// the same for a given (salt, message)
+pub fn exact_norm_triple_for(rng: &mut Prng, n: usize, target: i64, style: u64, salt: Vec<u8>, msg: Vec<u8>) -> Option<(Vec<u8>, Vec<u8>, Vec<u8>)> {
     let s2 = small_s2(rng, n, style);
     let n2: i64 = s2.iter().map(|&x| (x as i64) * (x as i64)).sum();
     if n2 >= target {
@@ -189,6 +194,18 @@ pub fn generate(tier: &str, rng: &mut Prng) -> Vec<Case> {
                 if let Some((m, s, p)) = exact_norm_triple(rng, n, bound(n) + dl, r % 3) {
                     push(&mut ops, n, &m, &s, &p);
                 }
+            }
+        }
+        // hashed strings whose stream contains a sample at the acceptance boundary (5q-1 accepted, 5q rejected) or has
+        // unusually many rejections: valid signatures for them must be accepted
+        let mut special = vec![];
+        for word in [61444u32, 61445] {
+            special.extend(crate::c14::with_word(n, word, if thorough { 6 } else { 2 }));
+        }
+        special.extend(crate::c14::extremes().into_iter().take(if thorough { 20 } else { 3 }));
+        for (salt, msg) in special {
+            if let Some((m, s, p)) = exact_norm_triple_for(rng, n, bound(n) - 12345, 0, salt, msg) {
+                push(&mut ops, n, &m, &s, &p);
             }
         }
         for _ in 0..(if thorough { 200 } else { 12 }) {
